@@ -133,16 +133,18 @@ func (l *Gpos4_1) apply(ctx *Context, a, b int) int {
 	if a == 0 {
 		return -1
 	}
+	// The base glyph is the glyph which precedes the mark, skipping marks.
+	// If this glyph has no anchors in this subtable, the mark is not attached
+	// (in particular, it is not attached to a glyph further back).
 	p := a - 1
-	var baseIdx int
-	for p >= 0 {
-		baseIdx, ok = l.BaseCov[seq[p].GID]
-		if ok {
-			break
-		}
+	for p >= 0 && ctx.isMark(seq[p].GID) {
 		p--
 	}
 	if p < 0 {
+		return -1
+	}
+	baseIdx, ok := l.BaseCov[seq[p].GID]
+	if !ok {
 		return -1
 	}
 	if int(markRecord.Class) >= len(l.BaseArray[baseIdx]) {
